@@ -24,6 +24,13 @@ MUTS = {
       *q++ = *p++;
       *q++ = *p++;
     } else {''', '''    } else {'''),
+ 'M9_no_doubled_prefix_check': ('''  if ((base == 16 && !strncasecmp(p, "0x", 2)) ||
+      (base == 2 && !strncasecmp(p, "0b", 2)))
+    return false;''', '''  if (0)
+    return false;'''),
+ 'M10_char_end_no_escape_skip': ('''    if (*end == '\\\\' && end[1])
+      end++;''', '''    if (0)
+      end++;'''),
  'M6_esc_v': ('''  case 'v': return '\\v';''', '''  case 'v': return '\\f';'''),
  'M7_utf16_surr': ('''      buf[len++] = 0xd800 + ((c >> 10) & 0x3ff);''', '''      buf[len++] = 0xd800 + ((c >> 10) & 0x1ff);'''),
  'M8_base8_9': ('''  } else if (*p == '0') {
